@@ -9,22 +9,26 @@ import TensorModel.Proofs.MultIter
 
   * `lastIndex_eq_block` (no further guard): the iterator is built (no panic), every one of the first `∏ sh`
     calls of `Next` succeeds, and after `k+1` calls `LastIndex(j)` is the `k`-th row-major coordinate against
-    the *filled stride block* of operand `j` — with and without block sharing;
-  * `preOf_agree` / `GoodStrides`: the filled block agrees with the operand's own strides on every axis that
-    moves iff no moving axis has stride 0 and a row vector `(1,n)` has inner stride 1;
-  * **`lastIndex_eq_flat`** (main theorem, guard `GoodStrides`): after `k+1` calls `LastIndex(j)` is the
-    `k`-th offset of the flat iterator of operand `j`, for every `j` and `k < ∏ sh`; the calls return the
-    offsets of operand 0;
-  * `lastIndex_eq_flat_full_fails`: without the guard the statement is false (finding F100, kernel-checked);
+    the *filled stride block* of operand `j` (its own strides, zeros replaced by ones) — with and without
+    block sharing;
+  * `preOf_agree` / `NoZeroStride`: the filled block agrees with the operand's own strides on every axis that
+    moves as soon as no moving axis has stride 0;
+  * **`lastIndex_eq_flat`** (main theorem; only guard: `NoZeroStride`): after `k+1` calls `LastIndex(j)` is
+    the `k`-th offset of the flat iterator of operand `j`, for every `j` and `k < ∏ sh`; the calls return the
+    offsets of operand 0 (`next_returns_first`);
+  * `zero_stride_guard_needed`: the one guard left is needed (the loop "fill 0s with 1s"; kernel-checked);
   * `exhaustion` / `done_agrees`: after `∏ sh` calls the iterator is done, `Done()` answers like the flat
     iterator of every operand after the same number of calls, further calls report the error and change nothing;
   * `reset_restarts` / `start_restarts`: `Reset` (`Start`) after any number `k ≤ ∏ sh` of calls restarts;
-  * `reverse_eq_flat`: `SetReverse` on the fresh iterator, then `k+1` calls: `LastIndex(j)` is the `k`-th
-    element of the reversed sequence of the flat iterator of operand `j`;
+  * `forward_restarts`: so does `SetForward` — also on the exhausted iterator;
+  * `reverse_eq_flat`: `SetReverse` after any number `k₀ ≤ ∏ sh` of calls (the fresh iterator, in the middle
+    of a run, the exhausted iterator), then `k+1` calls: `LastIndex(j)` is the `k`-th element of the reversed
+    sequence of the flat iterator of operand `j`;
   * `sharing_unobservable` (no guard): the iterator with block sharing and the iterator in which every
     operand has its own block return the same values, the same `LastIndex(j)` and the same `Done()`;
-  * `switch_when_exhausted_sticks` (finding F101) and `vector_without_strides_panics` (finding F102):
-    kernel-checked witnesses of the two other recorded deviations.
+  * examples: a stepped row vector `(1,3)` next to a contiguous one, a direction switch on the exhausted
+    iterator, a column-major `(1)` without strides (the regions of the repaired findings F100, F101, F102,
+    now ordinary inputs).
 
   Assumption (stated, not proved): `hashIntArray` does not collide on the stride lists of one call — the
   model keys the blocks by the stride list itself.
@@ -46,7 +50,7 @@ theorem getElem_mem' {α} (l : List α) (j : Nat) (hj : j < l.length) : l[j] ∈
 
 /-- **Structure of the run (no guard).** The iterator is built; each of the first `∏ sh` calls returns a
     value; after `k+1` calls `LastIndex(j)` is the `k`-th row-major coordinate against the filled stride block
-    built for the strides of operand `j` (`fill (preOf sh strides_j)`: `BroadcastStrides`, zeros → ones). -/
+    built for the strides of operand `j` (`fill (preOf sh strides_j)`: the operand's own strides, zeros → ones). -/
 theorem lastIndex_eq_block (share : Bool) (aps : List AP) (sh : Shape) (h : SameShape aps sh) :
     ∃ it, MultIt.newWith share aps = .ok it ∧
       ∀ k, k < count sh →
@@ -77,13 +81,14 @@ theorem flat_offset (ap : AP) (sh : Shape) (hs : ap.shape = sh) (hl : ap.strides
   have hk' : k < (prod ap.shape).toNat := hk
   simp [hk']
 
-/-- **Main theorem.** Operands of one shape (any rank, positive dimensions), one stride per axis, any number
-    of operands, with or without block sharing; guard: for every operand no axis of extent ≠ 1 has stride 0
-    and, if the shape is a row vector `(1,n)`, `n > 1`, its inner stride is 1 (`GoodStrides`).
+/-- **Main theorem.** Operands of one shape `sh` (any rank, positive dimensions), every operand with one
+    stride per axis (`SameShape`: a column-major vector, which carries fewer strides than axes — finding F24 —,
+    is outside), any number of operands, with or without block sharing; only guard: no operand has stride 0 on
+    an axis of extent ≠ 1 (`NoZeroStride`: `NewMultIterator` replaces the zeros of its stride blocks by ones).
     Then `NewMultIterator` succeeds and after `k+1` calls of `Next` (`k < ∏ sh`) `LastIndex(j)` **is the
     `k`-th offset the flat iterator of operand `j` yields** — for every `j` and `k`. -/
 theorem lastIndex_eq_flat (share : Bool) (aps : List AP) (sh : Shape) (h : SameShape aps sh)
-    (hg : ∀ ap ∈ aps, GoodStrides sh ap.strides) :
+    (hz : ∀ ap ∈ aps, NoZeroStride sh ap.strides) :
     ∃ it, MultIt.newWith share aps = .ok it ∧
       ∀ k, k < count sh → ∀ j (hj : j < aps.length),
         (FlatIt.offsets aps[j])[k]? = some (((MultIt.nextN (k + 1) it).1).lastIndex j) := by
@@ -94,7 +99,7 @@ theorem lastIndex_eq_flat (share : Bool) (aps : List AP) (sh : Shape) (h : SameS
   obtain ⟨hs, hl⟩ := h.same _ hm
   rw [flat_offset aps[j] sh hs hl h.pos k hk, (hrun k hk).2 j hj]
   congr 1
-  exact (dot_coordAt_agree sh _ _ (preOf_agree sh _ hl (hg _ hm)) k).symm
+  exact (dot_coordAt_agree sh _ _ (preOf_agree sh _ hl (hz _ hm)) k).symm
 
 /-- … and the value each call returns is `LastIndex(0)`: the offsets of the first operand, never the error. -/
 theorem next_returns_first (share : Bool) (aps : List AP) (sh : Shape) (h : SameShape aps sh) :
@@ -173,13 +178,39 @@ theorem done_agrees (share : Bool) (aps : List AP) (sh : Shape) (h : SameShape a
   obtain ⟨hs, hl⟩ := h.same _ (getElem_mem' aps j hj)
   rw [hd k hk, flat_done_at aps[j] (by rw [hs]; exact hl) (by rw [hs]; exact h.pos) k (by rw [hs]; exact hk), hs]
 
-/-! ## Reset / Start -/
+/-! ## Reset / Start / SetForward -/
+
+/-- an iterator `r` that serves every operand with a restarted copy of the block iterator `it` serves it with
+    behaves like the fresh `it`: `m+1` calls all succeed and leave in `LastIndex(j)` the `m`-th offset of the
+    flat iterator of operand `j` -/
+theorem restarted_runs (share : Bool) (aps : List AP) (sh : Shape) (h : SameShape aps sh)
+    (hz : ∀ ap ∈ aps, NoZeroStride sh ap.strides) (it : MultIt) (hb : Built share aps sh it) (r : MultIt)
+    (hlock : Lockstep r (prod sh).toNat) (hwhich : r.which = it.which)
+    (hfit : ∀ (b : Nat) (f : FlatIt), it.fits[b]? = some f → ∃ g, r.fits[b]? = some g ∧ ∀ m, outF g m = outF f m) :
+    ∀ m, m < count sh →
+      ((MultIt.nextN (m + 1) r).2.all (·.isSome) = true) ∧
+      ∀ j (hj : j < aps.length),
+        (FlatIt.offsets aps[j])[m]? = some (((MultIt.nextN (m + 1) r).1).lastIndex j) := by
+  intro m hm
+  have hm' : m < (prod sh).toNat := hm
+  have hN := nextN_lockstep r _ hlock (m + 1) (by omega)
+  refine ⟨by rw [hN]; simp, ?_⟩
+  intro j hj
+  have hmem := getElem_mem' aps j hj
+  obtain ⟨hs, hl⟩ := h.same _ hmem
+  obtain ⟨b, hw, hf⟩ := hb.serve j hj
+  obtain ⟨g, hg1, hg2⟩ := hfit b _ hf
+  rw [hN, stateAt_lastIndex r _ hlock m hm' j b g (by rw [hwhich]; exact hw) hg1, hg2 m]
+  have hpl : (blkOf sh (aps[j]).strides).pre.length = sh.length := preOf_length sh _ hl
+  rw [(mkFit_runs sh _ hpl h.pos).2 m hm', flat_offset aps[j] sh hs hl h.pos m hm]
+  congr 1
+  exact (dot_coordAt_agree sh _ _ (preOf_agree sh _ hl (hz _ hmem)) m).symm
 
 /-- **`Reset` restarts.** After any number `k ≤ ∏ sh` of calls, `Reset` succeeds and the iterator then
     behaves like a fresh one: `m+1` further calls all succeed and leave in `LastIndex(j)` the `m`-th offset
-    of the flat iterator of operand `j` (guard `GoodStrides` as in the main theorem). -/
+    of the flat iterator of operand `j` (guard `NoZeroStride` as in the main theorem). -/
 theorem reset_restarts (share : Bool) (aps : List AP) (sh : Shape) (h : SameShape aps sh)
-    (hg : ∀ ap ∈ aps, GoodStrides sh ap.strides) :
+    (hz : ∀ ap ∈ aps, NoZeroStride sh ap.strides) :
     ∃ it, MultIt.newWith share aps = .ok it ∧
       ∀ k, k ≤ count sh → ∃ r, ((MultIt.nextN k it).1).reset = .ok r ∧
         ∀ m, m < count sh →
@@ -192,30 +223,36 @@ theorem reset_restarts (share : Bool) (aps : List AP) (sh : Shape) (h : SameShap
   refine ⟨resetOf it k, ?_, ?_⟩
   · rw [nextN_lockstep it _ hb.lock k hk]
     exact stateAt_reset it _ hb.fresh k
-  · intro m hm
-    have hm' : m < (prod sh).toNat := hm
-    have hlock := resetOf_lockstep it _ hb.lock k
-    have hN := nextN_lockstep (resetOf it k) _ hlock (m + 1) (by omega)
-    refine ⟨by rw [hN]; simp, ?_⟩
-    intro j hj
-    have hmem := getElem_mem' aps j hj
-    obtain ⟨hs, hl⟩ := h.same _ hmem
-    obtain ⟨b, hw, hf⟩ := hb.serve j hj
-    obtain ⟨g, hg1, hg2⟩ := resetOf_fit it _ hb.lock k b _ hf
-    rw [hN, stateAt_lastIndex (resetOf it k) _ hlock m hm' j b g (by simpa [resetOf] using hw) hg1, hg2 m]
-    have hpl : (blkOf sh (aps[j]).strides).pre.length = sh.length := preOf_length sh _ hl
-    rw [(mkFit_runs sh _ hpl h.pos).2 m hm', flat_offset aps[j] sh hs hl h.pos m hm]
-    congr 1
-    exact (dot_coordAt_agree sh _ _ (preOf_agree sh _ hl (hg _ hmem)) m).symm
+  · exact restarted_runs share aps sh h hz it hb (resetOf it k) (resetOf_lockstep it _ hb.lock k) rfl
+      (fun b f hf => resetOf_fit it _ hb.lock k b f hf)
+
+/-- **`SetForward` restarts** like `Reset` — after any number `k ≤ ∏ sh` of calls, in particular on the
+    exhausted iterator (`k = ∏ sh`; the method clears the iterator's own `done` flag). -/
+theorem forward_restarts (share : Bool) (aps : List AP) (sh : Shape) (h : SameShape aps sh)
+    (hz : ∀ ap ∈ aps, NoZeroStride sh ap.strides) :
+    ∃ it, MultIt.newWith share aps = .ok it ∧
+      ∀ k, k ≤ count sh → ∃ r, ((MultIt.nextN k it).1).setForward = .ok r ∧
+        ∀ m, m < count sh →
+          ((MultIt.nextN (m + 1) r).2.all (·.isSome) = true) ∧
+          ∀ j (hj : j < aps.length),
+            (FlatIt.offsets aps[j])[m]? = some (((MultIt.nextN (m + 1) r).1).lastIndex j) := by
+  obtain ⟨it, hb⟩ := built share aps sh h.ne h.same h.pos
+  refine ⟨it, hb.new, ?_⟩
+  intro k hk
+  refine ⟨fwdOf it (prod sh).toNat k, ?_, ?_⟩
+  · rw [nextN_lockstep it _ hb.lock k hk]
+    exact stateAt_setForward it _ hb.fresh k
+  · exact restarted_runs share aps sh h hz it hb (fwdOf it (prod sh).toNat k) (fwdOf_lockstep it _ hb.lock k) rfl
+      (fun b f hf => fwdOf_fit it _ hb.lock k b f hf)
 
 /-- **`Start` restarts**: it is `Reset` followed by `Next`; after any `k ≤ ∏ sh` calls it returns a value and
     leaves in `LastIndex(j)` the first offset of the flat iterator of operand `j`. -/
 theorem start_restarts (share : Bool) (aps : List AP) (sh : Shape) (h : SameShape aps sh)
-    (hg : ∀ ap ∈ aps, GoodStrides sh ap.strides) :
+    (hz : ∀ ap ∈ aps, NoZeroStride sh ap.strides) :
     ∃ it, MultIt.newWith share aps = .ok it ∧
       ∀ k, k ≤ count sh → ∃ it' i, ((MultIt.nextN k it).1).start = .ok (it', some i) ∧
         ∀ j (hj : j < aps.length), (FlatIt.offsets aps[j])[0]? = some (it'.lastIndex j) := by
-  obtain ⟨it, hnew, hr⟩ := reset_restarts share aps sh h hg
+  obtain ⟨it, hnew, hr⟩ := reset_restarts share aps sh h hz
   refine ⟨it, hnew, ?_⟩
   intro k hk
   obtain ⟨r, hreset, hrun⟩ := hr k hk
@@ -238,35 +275,33 @@ theorem start_restarts (share : Bool) (aps : List AP) (sh : Shape) (h : SameShap
 
 /-! ## reversed -/
 
-/-- **Reversed.** `SetReverse` on the fresh iterator succeeds; then each of the next `∏ sh` calls returns a
-    value and after `k+1` calls `LastIndex(j)` is the `k`-th offset of the *reversed* sequence of the flat
-    iterator of operand `j` (guard `GoodStrides` as in the main theorem). -/
+/-- **Reversed.** After any number `k₀ ≤ ∏ sh` of calls — on the fresh iterator (`k₀ = 0`), in the middle of
+    a run, on the exhausted iterator (`k₀ = ∏ sh`) — `SetReverse` succeeds; then each of the next `∏ sh` calls
+    returns a value and after `k+1` calls `LastIndex(j)` is the `k`-th offset of the *reversed* sequence of the
+    flat iterator of operand `j` (guard `NoZeroStride` as in the main theorem). -/
 theorem reverse_eq_flat (share : Bool) (aps : List AP) (sh : Shape) (h : SameShape aps sh)
-    (hg : ∀ ap ∈ aps, GoodStrides sh ap.strides) :
-    ∃ it r, MultIt.newWith share aps = .ok it ∧ it.setReverse = .ok r ∧
-      ∀ k, k < count sh →
-        ((MultIt.nextN (k + 1) r).2.all (·.isSome) = true) ∧
-        ∀ j (hj : j < aps.length),
-          (FlatIt.offsets aps[j]).reverse[k]? = some (((MultIt.nextN (k + 1) r).1).lastIndex j) := by
+    (hz : ∀ ap ∈ aps, NoZeroStride sh ap.strides) :
+    ∃ it, MultIt.newWith share aps = .ok it ∧
+      ∀ k₀, k₀ ≤ count sh → ∃ r, ((MultIt.nextN k₀ it).1).setReverse = .ok r ∧
+        ∀ k, k < count sh →
+          ((MultIt.nextN (k + 1) r).2.all (·.isSome) = true) ∧
+          ∀ j (hj : j < aps.length),
+            (FlatIt.offsets aps[j]).reverse[k]? = some (((MultIt.nextN (k + 1) r).1).lastIndex j) := by
   obtain ⟨it, hb⟩ := built share aps sh h.ne h.same h.pos
   have hrevs : ∀ f ∈ it.fits, f.setReverse = .ok (revFit f) ∧ Runs (revFit f) (prod sh).toNat := by
     intro f hf
     obtain ⟨b, rfl, hbl⟩ := hb.form f hf
     have := mkFit_rev_runs sh b hbl h.pos
     exact ⟨this.1, this.2.1⟩
-  let r : MultIt := { it with fits := it.fits.map revFit }
-  have hset : it.setReverse = .ok r := by
-    simp only [MultIt.setReverse, revFit_fits_mapM it.fits (fun f hf => (hrevs f hf).1), bind, Except.bind,
-      pure, Except.pure, r]
-  have hlock : Lockstep r (prod sh).toNat := by
-    refine ⟨hb.lock.pos, ?_, ?_, hb.notDone⟩
-    · intro hnil
-      exact hb.lock.ne (List.map_eq_nil_iff.1 hnil)
-    · intro g hg'
-      simp only [r, List.mem_map] at hg'
-      obtain ⟨f, hf, rfl⟩ := hg'
-      exact (hrevs f hf).2
-  refine ⟨it, r, hb.new, hset, ?_⟩
+  refine ⟨it, hb.new, ?_⟩
+  intro k₀ hk₀
+  let r := revOf it (prod sh).toNat k₀
+  have hset : ((MultIt.nextN k₀ it).1).setReverse = .ok r := by
+    rw [nextN_lockstep it _ hb.lock k₀ hk₀]
+    exact stateAt_setReverse it _ (fun f hf => (hrevs f hf).1) k₀
+  have hlock : Lockstep r (prod sh).toNat :=
+    revOf_lockstep it _ hb.lock.pos hb.lock.ne (fun f hf => (hrevs f hf).2) k₀
+  refine ⟨r, hset, ?_⟩
   intro k hk
   have hk' : k < (prod sh).toNat := hk
   have hN := nextN_lockstep r _ hlock (k + 1) (by omega)
@@ -275,9 +310,8 @@ theorem reverse_eq_flat (share : Bool) (aps : List AP) (sh : Shape) (h : SameSha
   have hmem := getElem_mem' aps j hj
   obtain ⟨hs, hl⟩ := h.same _ hmem
   obtain ⟨b, hw, hf⟩ := hb.serve j hj
-  have hf' : r.fits[b]? = some (revFit (mkFit sh (blkOf sh (aps[j]).strides))) := by
-    simp [r, List.getElem?_map, hf]
-  rw [hN, stateAt_lastIndex r _ hlock k hk' j b _ hw hf']
+  obtain ⟨g, hg1, hg2⟩ := revOf_fit it _ hb.lock.pos (fun f hf => (hrevs f hf).2) k₀ b _ hf
+  rw [hN, stateAt_lastIndex r _ hlock k hk' j b g (by simpa [r, revOf, stateAt] using hw) hg1, hg2 k]
   have hpl : (blkOf sh (aps[j]).strides).pre.length = sh.length := preOf_length sh _ hl
   rw [(mkFit_rev_runs sh _ hpl h.pos).2.2 k hk']
   have hlen : (FlatIt.offsets aps[j]).length = (prod sh).toNat := by
@@ -285,12 +319,11 @@ theorem reverse_eq_flat (share : Bool) (aps : List AP) (sh : Shape) (h : SameSha
   rw [List.getElem?_reverse (by rw [hlen]; exact hk'), hlen,
     flat_offset aps[j] sh hs hl h.pos ((prod sh).toNat - 1 - k) (by show _ < (prod sh).toNat; omega)]
   congr 1
-  exact (dot_coordAt_agree sh _ _ (preOf_agree sh _ hl (hg _ hmem)) _).symm
+  exact (dot_coordAt_agree sh _ _ (preOf_agree sh _ hl (hz _ hmem)) _).symm
 
 /-! ## block sharing -/
 
-/-- **Block sharing is unobservable** on equally shaped operands (no guard — also inside the defect region
-    F100): the iterator with sharing and the iterator in which every operand has its own block are both built,
+/-- **Block sharing is unobservable** on equally shaped operands (no guard): the iterator with sharing and the iterator in which every operand has its own block are both built,
     their calls return the same values, and after every number `k ≤ ∏ sh` of calls they show the same
     `LastIndex(j)` for every operand and the same `Done()`. -/
 theorem sharing_unobservable (aps : List AP) (sh : Shape) (h : SameShape aps sh) :
@@ -358,80 +391,92 @@ theorem sharing_unobservable (aps : List AP) (sh : Shape) (h : SameShape aps sh)
       simp only [MultIt.lastIndex, stateAt, e₁, e₂]
     | succ i => exact hsame j hj i (by omega)
 
-/-! ## the guard and the defect regions -/
+/-! ## the guard that is left; the regions of the repaired findings as ordinary inputs -/
 
-/-- outside the region of finding F100, with no zero stride on a moving axis, the guard holds -/
-theorem good_of_not_excl (sh : Shape) (ap : AP) (hs : ap.shape = sh) (hz : NoZeroStride sh ap.strides)
-    (hl : ap.strides.length = sh.length) (he : Excl_rowVecInnerStride sh ap = false) :
-    GoodStrides sh ap.strides := by
-  refine ⟨hz, ?_⟩
-  intro hrow
-  have hv : isVector sh = true := by simp [isVector, hrow]
-  simp only [Excl_rowVecInnerStride, hs, hv, hrow, Bool.true_and] at he
-  match sh, hrow, hl with
-  | [a, b], _, hl =>
-    match hst : ap.strides, hl with
-    | [s0, s1], _ =>
-      rw [hst] at he
-      simp only [List.getElem?_cons_succ, List.getElem?_cons_zero] at he ⊢
-      have : s1 = 1 := by simpa using he
-      rw [this]
-
-/-- a contiguous row vector (1,3) and a stepped view (1,3) with strides (6,2) -/
-def failAps : List AP := [{ shape := [1, 3], strides := [3, 1] }, { shape := [1, 3], strides := [6, 2] }]
-
-/-- **The guard is needed** (finding F100, kernel-checked): a contiguous row vector (1,3) and a stepped view
-    (1,3) with strides (6,2). After two calls `LastIndex(1)` is 1; the view's own flat iterator yields 0, 2, 4. -/
-theorem lastIndex_eq_flat_full_fails :
+/-- **The guard `NoZeroStride` is needed** (kernel-checked): two `(2)` operands, the second with stride 0 (a
+    hand-made access pattern: one element repeated). Its own flat iterator yields 0, 0; `NewMultIterator`
+    replaces the zero of the stride block by a one and walks 0, 1. -/
+theorem zero_stride_guard_needed :
     ¬ (∀ (aps : List AP) (sh : Shape), SameShape aps sh →
         ∃ it, MultIt.newWith true aps = .ok it ∧
           ∀ k, k < count sh → ∀ j (hj : j < aps.length),
             (FlatIt.offsets aps[j])[k]? = some (((MultIt.nextN (k + 1) it).1).lastIndex j)) := by
   intro hall
-  have hss : SameShape failAps [1, 3] := by
-    refine ⟨by simp [failAps], ?_, ?_⟩
+  let aps : List AP := [{ shape := [2], strides := [1] }, { shape := [2], strides := [0] }]
+  have hss : SameShape aps [2] := by
+    refine ⟨by simp [aps], ?_, ?_⟩
     · intro ap hap
-      simp only [failAps, List.mem_cons, List.mem_nil_iff, or_false] at hap
+      simp only [aps, List.mem_cons, List.mem_nil_iff, or_false] at hap
       rcases hap with rfl | rfl <;> exact ⟨rfl, rfl⟩
     · intro d hd
       simp only [List.mem_cons, List.mem_nil_iff, or_false] at hd
-      rcases hd with rfl | rfl <;> decide
-  obtain ⟨it, hnew, hrun⟩ := hall failAps [1, 3] hss
+      subst hd; decide
+  obtain ⟨it, hnew, hrun⟩ := hall aps [2] hss
   have h1 := hrun 1 (by decide) 1 (by decide)
-  have key : (match MultIt.newWith true failAps with
-      | .ok it => ((FlatIt.offsets failAps[1])[1]? == some (((MultIt.nextN 2 it).1).lastIndex 1))
+  have key : (match MultIt.newWith true aps with
+      | .ok it => ((FlatIt.offsets aps[1])[1]? == some (((MultIt.nextN 2 it).1).lastIndex 1))
       | .error _ => true) = false := by decide
   rw [hnew] at key
   simp only [beq_eq_false_iff_ne, ne_eq] at key
   exact key h1
 
-example : Excl_rowVecInnerStride [1, 3] { shape := [1, 3], strides := [6, 2] } = true := by decide
-example : GoodStrides [1, 3] [3, 1] := ⟨⟨Or.inl rfl, Or.inr (by decide), trivial⟩, fun _ => rfl⟩
+/-- a contiguous row vector (1,3) and a stepped view (1,3) with strides (6,2) (the witness of the repaired
+    finding F100) -/
+def rowAps : List AP := [{ shape := [1, 3], strides := [3, 1] }, { shape := [1, 3], strides := [6, 2] }]
 
-/-- finding F101, kernel-checked: a multi-iterator over two (2) vectors is run to exhaustion and switched to
-    reverse: its next call reports the error, while the flat iterator of the operand, treated alike, yields
-    the last element. `Done()` (which recomputes the flag) or `Reset` un-stick it. -/
-theorem switch_when_exhausted_sticks :
+/-- … satisfy the hypotheses of the main theorem … -/
+example : SameShape rowAps [1, 3] ∧ ∀ ap ∈ rowAps, NoZeroStride [1, 3] ap.strides := by
+  refine ⟨⟨by simp [rowAps], ?_, ?_⟩, ?_⟩
+  · intro ap hap
+    simp only [rowAps, List.mem_cons, List.mem_nil_iff, or_false] at hap
+    rcases hap with rfl | rfl <;> exact ⟨rfl, rfl⟩
+  · intro d hd
+    simp only [List.mem_cons, List.mem_nil_iff, or_false] at hd
+    rcases hd with rfl | rfl <;> decide
+  · intro ap hap
+    simp only [rowAps, List.mem_cons, List.mem_nil_iff, or_false] at hap
+    rcases hap with rfl | rfl <;> exact ⟨Or.inl rfl, Or.inr (by decide), trivial⟩
+
+/-- … and the run, evaluated: the stepped view is walked 0, 2, 4 — forwards, and backwards after a direction
+    switch on the exhausted iterator (the witness of the repaired finding F101: the switch restarts) -/
+example :
+    (match MultIt.new rowAps with
+     | .ok it =>
+       ((List.range 3).map (fun k => ((MultIt.nextN (k + 1) it).1).last),
+        (match ((MultIt.nextN 3 it).1).setReverse with
+         | .ok r => (List.range 3).map (fun k => ((MultIt.nextN (k + 1) r).1).last)
+         | .error _ => []))
+     | .error _ => ([], [])) =
+      ([[0, 0], [1, 2], [2, 4]], [[2, 4], [1, 2], [0, 0]]) ∧
+    rowAps.map FlatIt.offsets = [[0, 1, 2], [0, 2, 4]] := by
+  decide
+
+/-- a multi-iterator over two (2) vectors run to exhaustion and switched to reverse (forward) yields again,
+    like the flat iterator of the operand treated alike -/
+example :
     let aps : List AP := [{ shape := [2], strides := [1] }, { shape := [2], strides := [2] }]
     (match MultIt.new aps with
      | .ok it =>
+       ((MultIt.nextN 2 it).1).next.2 == none &&
        (match ((MultIt.nextN 2 it).1).setReverse with
-        | .ok r => r.next.2 == none && (r.isDone.1).next.2 == some 1
+        | .ok r => r.next.2 == some 1 && r.next.1.last == [1, 2]
+        | .error _ => false) &&
+       (match ((MultIt.nextN 2 it).1).setForward with
+        | .ok r => r.next.2 == some 0 && (MultIt.nextN 2 r).1.last == [1, 2]
         | .error _ => false)
      | .error _ => false) = true ∧
     (match (FlatIt.run 2 (FlatIt.new { shape := [2], strides := [2] })).2.setReverse with
      | .ok r => r.next.2 == some 2
-     | .error _ => false) = true ∧
-    Excl_switchWhenExhausted 2 "NrN" = true ∧ Excl_switchWhenExhausted 2 "NrdN" = false ∧
-    Excl_switchWhenExhausted 2 "nrN" = false := by
+     | .error _ => false) = true := by
   decide
 
-/-- finding F102, kernel-checked: a column-major `(1)` carries no strides; `NewMultIterator` panics -/
-theorem vector_without_strides_panics :
+/-- a column-major `(1)` carries no strides (finding F24; outside `SameShape`): `NewMultIterator` builds the
+    iterator all the same and yields the one element of either operand (the witness of the repaired finding
+    F102) -/
+example :
     (match MultIt.new [{ shape := [1], strides := [1] }, { shape := [1], strides := [] }] with
-     | .error (.panic _) => true
-     | _ => false) = true ∧
-    Excl_vectorNoStrides [1] { shape := [1], strides := [] } = true := by
+     | .ok it => (MultIt.nextN 2 it).2 == [some 0, none] && (MultIt.nextN 1 it).1.last == [0, 0]
+     | .error _ => false) = true := by
   decide
 
 /-! ## non-vacuity -/
@@ -449,11 +494,11 @@ example : SameShape exAps [2, 3] := by
     simp only [List.mem_cons, List.mem_nil_iff, or_false] at hd
     rcases hd with rfl | rfl <;> decide
 
-example : ∀ ap ∈ exAps, GoodStrides [2, 3] ap.strides := by
+example : ∀ ap ∈ exAps, NoZeroStride [2, 3] ap.strides := by
   intro ap hap
   simp only [exAps, List.mem_cons, List.mem_nil_iff, or_false] at hap
   rcases hap with rfl | rfl | rfl <;>
-    exact ⟨⟨Or.inr (by decide), Or.inr (by decide), trivial⟩, fun h => by simp [isRowVec] at h⟩
+    exact ⟨Or.inr (by decide), Or.inr (by decide), trivial⟩
 
 /-- … and the run itself, evaluated: the three `LastIndex` sequences are the three flat-iterator sequences;
     the first two operands and a repetition of the first share nothing observable -/
@@ -465,9 +510,10 @@ example :
     exAps.map FlatIt.offsets = [[0, 1, 2, 3, 4, 5], [0, 2, 4, 1, 3, 5], [0, 2, 4, 12, 14, 16]] := by
   decide
 
-/-- row vectors with inner stride 1 (contiguous, column-major with its single stride is outside `SameShape`)
-    and column vectors with any stride satisfy the guard -/
-example : GoodStrides [4, 1] [3, 1] := ⟨⟨Or.inr (by decide), Or.inl rfl, trivial⟩, fun h => by simp [isRowVec] at h⟩
-example : GoodStrides [1, 1, 3] [9, 9, 2] := ⟨⟨Or.inl rfl, Or.inl rfl, Or.inr (by decide), trivial⟩, fun h => by simp [isRowVec] at h⟩
+/-- row and column vectors with any non-zero stride on the axis that moves satisfy the guard (a column-major
+    `(1,n)` with its single stride is outside `SameShape`); the stride of an extent-1 axis may be anything -/
+example : NoZeroStride [4, 1] [3, 0] := ⟨Or.inr (by decide), Or.inl rfl, trivial⟩
+example : NoZeroStride [1, 4] [8, 2] := ⟨Or.inl rfl, Or.inr (by decide), trivial⟩
+example : NoZeroStride [1, 1, 3] [9, 9, 2] := ⟨Or.inl rfl, Or.inl rfl, Or.inr (by decide), trivial⟩
 
 end TM.C05mult
